@@ -42,6 +42,7 @@ impl CountVectorizerValidParams {
         &self,
         x: &ArrayBase<D, Ix1>,
     ) -> Result<CountVectorizer> {
+        self.validate_deserialization()?;
         // word, (integer mapping for word, document frequency for word)
         let mut vocabulary: HashMap<String, (usize, usize)> = HashMap::new();
         for string in x.iter().map(|s| transform_string(s.to_string(), self)) {
@@ -78,6 +79,7 @@ impl CountVectorizerValidParams {
         encoding: EncodingRef,
         trap: DecoderTrap,
     ) -> Result<CountVectorizer> {
+        self.validate_deserialization()?;
         // word, (integer mapping for word, document frequency for word)
         let mut vocabulary: HashMap<String, (usize, usize)> = HashMap::new();
         let documents_count = input.len();
@@ -175,6 +177,18 @@ impl CountVectorizerValidParams {
         } else {
             vocabulary
         }
+    }
+
+    /// A parameter set that was deserialized after having been given a tokenizer function has lost
+    /// that function (function pointers are not serialized). Learning a vocabulary with the
+    /// fallback regex would silently produce a different model, so this is an error, exactly
+    /// as it is when transforming with a deserialized [CountVectorizer](CountVectorizer).
+    fn validate_deserialization(&self) -> Result<()> {
+        if self.tokenizer_function().is_none() && self.tokenizer_deserialization_guard {
+            return Err(PreprocessingError::TokenizerNotSet);
+        }
+
+        Ok(())
     }
 
     /// Inserts all vocabulary entries learned from a single document (`doc`) into the
